@@ -638,7 +638,8 @@ Ltac cong_leafc RC :=
 
 Ltac cong_struct :=
   first
-  [ apply comp1_ext; intro | apply comp2_ext; intros ? ?
+  [ apply dict_zip_lazy_ext; intro
+  | apply comp1_ext; intro | apply comp2_ext; intros ? ?
   | apply all1_ext; intro | apply all2_ext; intros ? ?
   | apply sorted_by_str_ext; intro
   | apply for2_ext; intros ? ? ? | apply for1_ext; intros ? ?
